@@ -3,63 +3,118 @@
 (* C10 - generic dispatch equals the specification and is unaffected by    *)
 (* its cache.                                                              *)
 (*                                                                         *)
-(* Reference: the method table is a set of <<qualifier, specializers>>;    *)
-(* a call runs all applicable :around methods most specific first (each    *)
-(* continuing with call-next-method), then all :before methods most        *)
-(* specific first, the most specific primary, then all :after methods      *)
-(* least specific first.  Specificity is lexicographic over the argument   *)
-(* positions, each argument by the precedence list of its class.  The      *)
-(* reference has no cache: what a call runs depends on the table at that   *)
-(* moment only.  Calls are part of the explored state (`called`) because   *)
-(* in the implementation they populate a cache.                            *)
+(* Reference (variable meths): the method table maps <<qualifier,          *)
+(* specializers>> to the version of the body last defined.  A call runs    *)
+(* all applicable :around methods most specific first (each continuing     *)
+(* with call-next-method; version 2 of an :around body does not continue), *)
+(* then all :before methods most specific first, the most specific         *)
+(* primary, then all :after methods least specific first.  Specificity is  *)
+(* lexicographic over the argument positions, each argument by the         *)
+(* precedence list of its class.  What a call runs depends on the table at *)
+(* that moment only.                                                       *)
+(*                                                                         *)
+(* Implementation-shaped part (variables cache, dflt): what Aux keeps -    *)
+(* effective methods cached by argument class tuple, cleared by every      *)
+(* defmethod / remove-method, and the single-method fast path.  TLC checks *)
+(* CacheCoherent: the design "clear on every change" makes the cached      *)
+(* effective method equal to the reference for every reachable state.      *)
+(*                                                                         *)
+(* Ghost variable shadow: what each argument class tuple ran when it was   *)
+(* last called (never cleared).  It is part of the VIEW, so that two       *)
+(* histories that reach the same table but called before / after a         *)
+(* definition are different states and both get tested: an implementation  *)
+(* that fails to invalidate exactly differs on those.                      *)
 (***************************************************************************)
 EXTENDS Integers, Sequences, FiniteSets, TLC, Json
-CONSTANTS MaxOps, Arity
+CONSTANTS MaxOps, Arity, EmitFrom
 Quals == {"primary", "before", "after", "around"}
-Classes == <<"k1", "k2", "k3", "t">>            \* k1 < k2 < k3 < t
-ArgCls == {"k1", "k2", "k3"}
+ArgCls == {"k1", "k2", "k3"}                       \* k1 < k2 < k3 < t
 CPL(c) == IF c = "k1" THEN <<"k1", "k2", "k3", "t">> ELSE IF c = "k2" THEN <<"k2", "k3", "t">> ELSE <<"k3", "t">>
 Specs == [1..Arity -> {"k1", "k2", "k3", "t"}]
 Args == [1..Arity -> ArgCls]
-VARIABLES meths, called, hist, feat
+VARIABLES meths,    \* set of <<qualifier, specializers, version>>, at most one version per key
+          cache,    \* implementation: set of <<args, effective trace>>, at most one per args
+          dflt,     \* implementation: TRUE iff the single-method fast path is armed
+          shadow,   \* ghost: set of <<args, trace at the last call>>, at most one per args
+                    \* (sets of pairs, not functions: TLC cannot spill lazily built function values to disk)
+          hist
+vars == <<meths, cache, dflt, shadow, hist>>
 
-\* all specializer tuples applicable to the argument classes, most specific first
+Has(q, sp) == \E v \in 1..2 : <<q, sp, v>> \in meths
+Ver(q, sp) == CHOOSE v \in 1..2 : <<q, sp, v>> \in meths
+\* all specializer tuples applicable to the argument classes, most specific first (leftmost argument most significant)
 RECURSIVE Tuples(_, _)
 Tuples(args, i) == IF i > Arity THEN << <<>> >>
                    ELSE LET rest == Tuples(args, i + 1)  cpl == CPL(args[i]) IN
                         [j \in 1..(Len(cpl) * Len(rest)) |->
                            <<cpl[((j - 1) \div Len(rest)) + 1]>> \o rest[((j - 1) % Len(rest)) + 1]]
 Ordered(args) == Tuples(args, 1)
-Sel(args, q) == SelectSeq(Ordered(args), LAMBDA sp : <<q, sp>> \in meths)
+Sel(args, q) == SelectSeq(Ordered(args), LAMBDA sp : Has(q, sp))
 Rev(s) == [i \in 1..Len(s) |-> s[Len(s) + 1 - i]]
 RECURSIVE Join(_)
 Join(sp) == IF Len(sp) = 1 THEN sp[1] ELSE sp[1] \o "," \o Join(Tail(sp))
-Tag(sp, q) == Join(sp) \o ":" \o q
+VS(v) == IF v = 1 THEN "1" ELSE "2"
+Tag(sp, q, what) == Join(sp) \o ":" \o what \o ":" \o VS(Ver(q, sp))
+Inner(args) ==
+  LET bs == Sel(args, "before")  ps == Sel(args, "primary")  as == Rev(Sel(args, "after")) IN
+      [i \in 1..Len(bs) |-> Tag(bs[i], "before", "before")]
+      \o (IF ps = <<>> THEN <<>> ELSE <<Tag(ps[1], "primary", "primary")>>)
+      \o [i \in 1..Len(as) |-> Tag(as[i], "after", "after")]
+\* index of the first :around that does not continue, or 0
+FirstStop(ar) == IF \E i \in 1..Len(ar) : Ver("around", ar[i]) = 2
+                 THEN CHOOSE i \in 1..Len(ar) : Ver("around", ar[i]) = 2 /\ \A j \in 1..(i - 1) : Ver("around", ar[j]) = 1
+                 ELSE 0
 Effective(args) ==
-  LET ar == Sel(args, "around")  bs == Sel(args, "before")  ps == Sel(args, "primary")  as == Rev(Sel(args, "after"))
-      inner == [i \in 1..Len(bs) |-> Tag(bs[i], "before")]
-               \o (IF ps = <<>> THEN <<>> ELSE <<Tag(ps[1], "primary")>>)
-               \o [i \in 1..Len(as) |-> Tag(as[i], "after")]
-  IN [i \in 1..Len(ar) |-> Tag(ar[i], "in")] \o inner \o [i \in 1..Len(ar) |-> Tag(Rev(ar)[i], "out")]
+  LET ar == Sel(args, "around")
+      k  == FirstStop(ar)
+      n  == IF k = 0 THEN Len(ar) ELSE k - 1
+      ins  == [i \in 1..n |-> Tag(ar[i], "around", "in")]
+      outs == [i \in 1..n |-> Tag(ar[n + 1 - i], "around", "out")]
+  IN ins \o (IF k = 0 THEN Inner(args) ELSE <<Tag(ar[k], "around", "stop")>>) \o outs
 Applicable(args) == \E q \in Quals : Sel(args, q) # <<>>
-HasPrimary(args) == Sel(args, "primary") # <<>>
+\* the outcome is determined by the statement when a primary is applicable, or when an :around stops before it
+Determined(args) == Sel(args, "primary") # <<>> \/ FirstStop(Sel(args, "around")) # 0
 
-CallFeatures(args) == (IF Len(Sel(args, "around")) >= 2 THEN {"two-arounds"} ELSE {})
+\* ---- implementation-shaped: Aux.Call / addMethodCaller / remove-method ------------------------------------
+TopKey == [i \in 1..Arity |-> "t"]
+DfltArmed(m) == Cardinality({<<x[1], x[2]>> : x \in m}) = 1 /\ \E v \in 1..2 : <<"primary", TopKey, v>> \in m
+Cached(c, args) == \E x \in c : x[1] = args
+Get(c, args) == (CHOOSE x \in c : x[1] = args)[2]
+Put(c, args, tr) == {x \in c : x[1] # args} \cup {<<args, tr>>}
+ImplCall(args) == IF Cached(cache, args) THEN Get(cache, args) ELSE Effective(args)
 
-Init == meths = {} /\ called = {} /\ hist = <<>> /\ feat = {}
-Def(q, sp) == /\ <<q, sp>> \notin meths /\ meths' = meths \cup {<<q, sp>>} /\ called' = called /\ feat' = feat
-              /\ hist' = Append(hist, [op |-> "def", q |-> q, s |-> sp, exp |-> <<>>, app |-> TRUE, prim |-> TRUE])
-Rem(q, sp) == /\ <<q, sp>> \in meths /\ meths' = meths \ {<<q, sp>>} /\ called' = called /\ feat' = feat
-              /\ hist' = Append(hist, [op |-> "rem", q |-> q, s |-> sp, exp |-> <<>>, app |-> TRUE, prim |-> TRUE])
-Call(args) == /\ meths' = meths /\ called' = called \cup {args}
-              /\ feat' = feat \cup CallFeatures(args)
-              /\ hist' = Append(hist, [op |-> "call", q |-> "", s |-> args, exp |-> Effective(args),
-                                        app |-> Applicable(args), prim |-> HasPrimary(args)])
+Init == /\ meths = {} /\ cache = {} /\ dflt = FALSE /\ shadow = {} /\ hist = <<>>
+Def(q, sp) ==
+    /\ meths' = IF Has(q, sp) THEN (meths \ {<<q, sp, Ver(q, sp)>>}) \cup {<<q, sp, 3 - Ver(q, sp)>>}
+                ELSE meths \cup {<<q, sp, 1>>}
+    /\ cache' = {}                                                    \* cleared on every change
+    /\ dflt' = DfltArmed(meths')
+    /\ shadow' = shadow
+    /\ hist' = Append(hist, [op |-> "def", q |-> q, s |-> sp, v |-> (IF Has(q, sp) THEN 3 - Ver(q, sp) ELSE 1),
+                             exp |-> <<>>, app |-> TRUE, det |-> TRUE])
+Rem(q, sp) ==
+    /\ Has(q, sp)
+    /\ meths' = meths \ {<<q, sp, Ver(q, sp)>>}
+    /\ cache' = {}
+    /\ dflt' = DfltArmed(meths')
+    /\ shadow' = shadow
+    /\ hist' = Append(hist, [op |-> "rem", q |-> q, s |-> sp, v |-> 0, exp |-> <<>>, app |-> TRUE, det |-> TRUE])
+Call(args) ==
+    /\ meths' = meths /\ dflt' = dflt
+    /\ cache' = IF dflt \/ ~Applicable(args) THEN cache ELSE Put(cache, args, ImplCall(args))
+    /\ shadow' = Put(shadow, args, Effective(args))
+    /\ hist' = Append(hist, [op |-> "call", q |-> "", s |-> args, v |-> 0, exp |-> Effective(args),
+                             app |-> Applicable(args), det |-> Determined(args)])
 Next == /\ Len(hist) < MaxOps
         /\ \/ \E q \in Quals, sp \in Specs : Def(q, sp) \/ Rem(q, sp)
            \/ \E a \in Args : Call(a)
-Emit == PrintT(ToJson([hist |-> hist', feat |-> feat']))
-View == <<meths, called>>
-\* the reference agrees with itself: the most specific applicable primary is first in every ordering
-OrderOK == \A a \in Args : LET o == Ordered(a) IN Len(o) > 0 /\ o[1] = a
+Emit == Len(hist') < EmitFrom \/ PrintT(ToJson([hist |-> hist']))
+EmitState == Len(hist) < EmitFrom \/ PrintT(ToJson([hist |-> hist]))
+View == <<meths, shadow>>
+\* ---- design checks ---------------------------------------------------------------------------------------
+OrderOK == \A a \in Args : LET o == Ordered(a) IN Len(o) > 0 /\ o[1] = a /\ o[Len(o)] = TopKey
+\* the cached effective method always equals the reference (what the clear-on-change design guarantees)
+CacheCoherent == \A x \in cache : x[2] = Effective(x[1])
+\* the fast path is armed only when running the single primary is what the reference runs for every argument
+DfltSound == dflt => \A a \in Args : Effective(a) = <<Tag(TopKey, "primary", "primary")>>
 =============================================================================
